@@ -5,7 +5,8 @@ package c06
 //
 //	(a) the complete classification table (status 100..599 + error kinds) x attempt x retry.max,
 //	(b) retry delay bounds for every compile-accepted retry config of a DSL grid x attempt x jitter draw,
-//	(c) every target behaviour sequence up to retry.max+2 answers (single/multi target, concurrency, DLQ requeue).
+//	(c) every target behaviour sequence up to retry.max+2 answers (single/multi target, concurrency, DLQ requeue),
+//	(d) Drain requested while deliveries of a dequeue micro-batch are in flight.
 //
 // The oracle (judge) is written from the property statement only; it never
 // calls classifyDelivery/shouldRetry/isSuccess/retryDelay.
@@ -176,6 +177,14 @@ func judge(sp Spec, res Result) ([]Finding, judgeStats) {
 			}
 			ctx := fmt.Sprintf("message %s send #%d: answer %s at attempt %d (retry.max %d) settled as %q", m.ID, i+1, s.Beh, s.Attempt, rc.Max, got)
 			js.distinct = append(js.distinct, fmt.Sprintf("%s:%s:%s:%s", sp.Part, in, within, got))
+			if s.Action == "" {
+				key := "settle:missing"
+				if sp.DrainAtMS > 0 {
+					key += ":stop-during-micro-batch"
+				}
+				add(key, "%s; the delivery returned and its attempt was recorded (%d record(s)), but no ack/nack/mark-dead followed before the dispatcher finished draining", ctx, len(s.Rows))
+				continue
+			}
 			if s.Delivers != 1 {
 				add("sends:twice-per-lease", "%s; %d deliveries under one lease", ctx, s.Delivers)
 			}
@@ -296,22 +305,26 @@ func judge(sp Spec, res Result) ([]Finding, judgeStats) {
 			add("attempt-log:count", "message %s: %d sends but %d rows in the attempt log", m.ID, len(sends), len(rows))
 		} else {
 			var a, b []string
+			unsettled := false
 			for _, s := range sends {
 				o := map[string]string{"ack": "acked", "nack": "retry", "dead": "dead"}[s.Action]
 				a = append(a, fmt.Sprintf("%d:%s", s.Attempt, o))
+				unsettled = unsettled || s.Action == "" // reported as settle:missing
 			}
 			for _, r := range rows {
 				b = append(b, fmt.Sprintf("%d:%s", r.Attempt, r.Outcome))
 			}
 			sort.Strings(a)
 			sort.Strings(b)
-			if strings.Join(a, ",") != strings.Join(b, ",") {
+			if !unsettled && strings.Join(a, ",") != strings.Join(b, ",") {
 				add("attempt-log:content", "message %s: settlements %v but attempt log %v", m.ID, a, b)
 			}
 		}
 		// terminal state
 		if len(sends) == 0 {
-			add("terminal:never-sent", "message %s was never sent", m.ID)
+			if sp.DrainAtMS == 0 {
+				add("terminal:never-sent", "message %s was never sent", m.ID)
+			}
 			continue
 		}
 		f := res.Final[m.ID]
@@ -335,7 +348,7 @@ func judge(sp Spec, res Result) ([]Finding, judgeStats) {
 				add("terminal:dead-reason", "message %s dead-lettered as %q but stored dead_reason is %q", m.ID, last.Reason, f.DeadReason)
 			}
 		default:
-			if sp.StopAfter == 0 && !res.Stuck && !res.Runaway {
+			if sp.StopAfter == 0 && sp.DrainAtMS == 0 && !res.Stuck && !res.Runaway {
 				add("terminal:open", "message %s ended the history with last settlement %q (state %q)", m.ID, last.Action, f.State)
 			}
 		}
@@ -755,19 +768,20 @@ func (c *checker) partC() {
 	}
 	// two targets on one route (per-action lease mutations), one and two workers: every pair of distinct histories
 	type pair struct {
-		ma, mb int
-		concs  []int
+		ma, mb  int
+		concs   []int
+		scripts map[int][][]Beh
 	}
-	pairs := []pair{{1, 1, []int{1, 2}}, {1, 2, []int{1, 2}}}
+	pairs := []pair{{1, 1, []int{1, 2}, eff}, {1, 2, []int{1, 2}, eff}}
 	if r.Thorough() {
-		pairs = []pair{{1, 1, []int{1, 2}}, {1, 2, []int{1, 2}}, {2, 2, []int{2}}}
+		pairs = []pair{{1, 1, []int{1, 2}, eff}, {1, 2, []int{1, 2}, eff}, {2, 2, []int{1, 2}, effSmall}, {3, 1, []int{2}, effSmall}}
 	}
 	for _, pm := range pairs {
 		ta, tb := tgt("/a", pm.ma), tgt("/b", pm.mb)
 		tb.Base, tb.Cap = "150ms", "400ms"
 		for _, conc := range pm.concs {
-			for _, sa := range eff[pm.ma] {
-				for _, sb := range eff[pm.mb] {
+			for _, sa := range pm.scripts[pm.ma] {
+				for _, sb := range pm.scripts[pm.mb] {
 					if c.expired() {
 						return
 					}
@@ -824,6 +838,53 @@ func (c *checker) partC() {
 	}
 }
 
+// ---- (d) stop while deliveries are in flight ---------------------------------
+
+// partD: "Drain ... waits for in-flight deliveries to complete" — every delivery result obtained while the
+// dispatcher drains must still be settled. Three messages whose answers take 300ms each; Drain is requested
+// during the first, second or third delivery; route shapes with per-action, batched and micro-batched mutations.
+func (c *checker) partD() {
+	answers := []Beh{st(200), st(503), st(404), st(302), st(429), {Kind: "transport"}}
+	if c.r.Thorough() {
+		answers = append(answers, st(204), st(500), st(408), st(400), st(100), Beh{Kind: "eof"})
+	}
+	tg := Tgt{Path: "/hook", Max: "2", Base: "100ms", Cap: "250ms", Jitter: "0.2", Timeout: "1s"}
+	tb := Tgt{Path: "/b", Max: "2", Base: "100ms", Cap: "250ms", Jitter: "0.2", Timeout: "1s"}
+	for _, conc := range []int{1, 2, 3, 4} {
+		for _, two := range []bool{false, true} {
+			for _, drainAt := range []int{100, 400, 700} {
+				for _, store := range []string{"memory", "sqlite"} {
+					if store == "sqlite" && !(c.r.Thorough() || (conc == 2 && !two)) {
+						continue
+					}
+					for _, b := range answers {
+						if c.expired() {
+							return
+						}
+						slow := b
+						slow.SlowMS = 300
+						sp := Spec{Part: "d", Store: store, Targets: []Tgt{tg}, Conc: conc, HTTP: true, U: 0.5, DrainAtMS: drainAt}
+						if two {
+							sp.Targets = []Tgt{tg, tb}
+						}
+						for i := 0; i < 3; i++ {
+							t := tg
+							if two && i == 1 {
+								t = tb
+							}
+							sp.Msgs = append(sp.Msgs, Msg{ID: fmt.Sprintf("m%d", i), Target: t.URL(), Script: []Beh{slow}})
+						}
+						res := c.run(sp)
+						if conc == 2 && !two && drainAt == 100 {
+							c.sample(sp, res, 1)
+						}
+					}
+				}
+			}
+		}
+	}
+}
+
 // ---- entry -------------------------------------------------------------------
 
 func TestCheck(t *testing.T) {
@@ -847,8 +908,6 @@ func TestCheck(t *testing.T) {
 		b, _ := json.MarshalIndent(summary(f.Replay, res), "", " ")
 		fmt.Printf("REPLAY %s\n", b)
 		r.Sample(summary(f.Replay, res))
-		r.Distinct("replay-1")
-		r.Distinct("replay-2")
 		r.NotExhaustive("replay of one case")
 		r.Set("rule", "replay of one recorded history")
 		r.Finish()
@@ -857,20 +916,30 @@ func TestCheck(t *testing.T) {
 	for _, part := range []struct {
 		name string
 		f    func()
-	}{{"a", c.partA}, {"b", c.partB}, {"c", c.partC}} {
+	}{{"a", c.partA}, {"b", c.partB}, {"c", c.partC}, {"d", c.partD}} {
 		t0 := time.Now()
+		if part.name == "c" {
+			c.deadline = c.deadline.Add(-10 * time.Second) // keep room for the small part d
+		}
 		part.f()
+		if part.name == "c" {
+			c.deadline = c.deadline.Add(10 * time.Second)
+		}
 		r.Set("wall_s_part_"+part.name, math.Round(time.Since(t0).Seconds()*10)/10)
 	}
 
-	r.Set("rule", "(a) every answer (status 100..599, 8 error shapes) x attempt 1..max+2 x retry.max on one leased message through the real PushDispatcher; "+
-		"(b) every compile-accepted retry config of the DSL grid x every attempt up to 70 x harness-answered jitter draw; "+
-		"(c) every answer sequence of length retry.max+2 (+1 with a DLQ requeue) over the behaviour alphabet per store, pairs of histories on two-target routes, tuples on multi-worker routes. "+
-		"distinct = (part, input class, attempt<=max?, observed settlement), (jitter, capped?, position in the delay window), (store, sends, terminal state)")
-	r.Assume("lease mutations on the store succeed and leases do not expire during a delivery (lease TTL >= 30s, target timeout 1s); a failed mutation is reported as assumption:lease-mutation-failed")
-	r.Assume("the delivery target is an in-memory Deliverer (part a) or the real HTTPDeliverer over an in-memory RoundTripper (parts a-thorough, c); no sockets, DNS or TLS")
+	r.Set("rule", "every case is one history on the real PushDispatcher in a synctest bubble (real store behind a recorder, scripted target): "+
+		"(a) every answer (status 100..599 and 8 error shapes) x attempt 1..max+2 x retry.max on one leased message; "+
+		"(b) every compile-accepted retry config of the DSL grid x every attempt up to 70 (or max+1) x every harness-answered jitter draw; "+
+		"(c) every answer sequence of length retry.max+2 (+1 with one DLQ requeue) over the behaviour alphabet per store variant "+
+		"(scripts that only differ after the last answer asked for are the same history and run once), every pair of distinct histories on two-target routes, every tuple on multi-worker single-target routes; "+
+		"(d) Drain requested during the 1st/2nd/3rd of three slow deliveries x route shape x answer. "+
+		"distinct_nontrivial counts (part, input class, attempt<=max?, observed settlement), (part, jitter, capped?, position in the delay window) and (part, store, sends, terminal state) classes")
+	r.Assume("lease mutations on the store succeed (statement) and leases do not expire during a delivery (lease TTL >= 30s, target timeout 1s); a history with a failed lease mutation is counted and not judged; a store whose batch extension fails is covered because the per-action fallback succeeds")
+	r.Assume("the delivery target is an in-memory Deliverer (part a, b) or the real HTTPDeliverer with the compiled egress policy over an in-memory RoundTripper (parts a, c, d); no sockets, DNS or TLS; policy denials in parts c/d come from the real egress check (deny rule)")
 	r.Assume("retry delays are compared with a 2ns tolerance for float64 rounding and truncation to whole nanoseconds")
-	r.Assume("jitter draws are answered by the harness through the math/rand -> vrand import rewrite of dispatcher/push.go; answers {0, 0.5, largest float < 1} (thorough: six values)")
-	r.Assume("Postgres backend not executed; worker interleavings inside a bubble are the Go scheduler's (per-message oracle is schedule independent), no controlled preemption search")
+	r.Assume("jitter draws are answered by the harness through the math/rand -> vrand import rewrite of dispatcher/push.go; answers {0, 0.5, largest float < 1} (thorough: six values); any other source of randomness would be flagged as not exhaustive")
+	r.Assume("Postgres backend not executed; with several workers the interleaving inside a bubble is the Go scheduler's (the per-message oracle is schedule independent), no controlled preemption search; SQLite long-poll shortened to 250ms in the harness-built dispatcher")
+	r.Assume("retry.max, base, cap, jitter of the oracle are read from the configuration text, not from the compiled config: the real Parse/Compile/buildDispatchRoutes mapping is inside the checked path")
 	r.Finish()
 }
